@@ -261,7 +261,7 @@ func c12Listings(src, out string) string {
 		if len(name) != 1 || prints[i+1] != bn.BKeys+"("+name+")" || prints[i+2] != bn.BValues+"("+name+")" {
 			continue
 		}
-		obj, keys, vals := outLines[i], tok(outLines[i+1]), outLines[i+2]
+		obj, keys, vals := strings.ReplaceAll(outLines[i], ": ", ":"), tok(outLines[i+1]), outLines[i+2]
 		if strings.Contains(obj, "map[") && strings.Count(obj, "map[") > 1 || strings.Contains(obj, "[") && strings.Count(obj, "[") > 1 {
 			continue // nested containers: flat token comparison would be ambiguous
 		}
